@@ -42,15 +42,23 @@ Dedup(s) == IF s = <<>> THEN <<>> ELSE IF \E i \in 1..(Len(s) - 1) : s[i] = s[Le
 SetOf(s) == {s[i] : i \in DOMAIN s}
 \* what method j's entry must say - derived from method j's own annotations and docstring only
 Documented(j) == scn.kind # "openrpc" \/ scn.methods[j].ep = "root"        \* OpenRPC documents the root endpoint's methods
-EntryOf(j, h) ==
-    LET m == scn.methods[j] IN
+\* plan "swap": in the SECOND generation every exposed name is served by ANOTHER function (a fresh parameterless, undocumented,
+\* unannotated one, like f4) - what was documented for the old function must not survive.  EffM(j, g) is the method as
+\* generation g has to document it; fn / name stay the identification of the entry (the exposed name and endpoint).
+Swapped(g) == scn.plan = "swap" /\ g = 2
+EffM(j, g) == IF Swapped(g) THEN [scn.methods[j] EXCEPT !.errs = "unset", !.tags = "none", !.cpref = "none", !.meta = "none"]
+              ELSE scn.methods[j]
+EffFn(j, g) == IF Swapped(g) THEN "f4" ELSE scn.methods[j].fn
+EntryOfG(j, h, g) ==
+    LET m == EffM(j, g)  f == EffFn(j, g)
+        ref == IF m.errs = "shared" THEN 1 ELSE IF m.errs \in {"own", "own2"} THEN 1 + j ELSE 0 IN
     [fn |-> m.fn, ep |-> m.ep, name |-> m.name,          \* name: "own" (the function's name) or an explicit exposed name
      \* the documented result type is the method's own: the explicit result schema if one was annotated, else the return annotation
-     result |-> IF m.meta = "schemas" THEN "explicit_own" ELSE IF scn.extractor = "pyd" THEN ResultKind[m.fn] ELSE "na",
+     result |-> IF m.meta = "schemas" THEN "explicit_own" ELSE IF scn.extractor = "pyd" THEN ResultKind[f] ELSE "na",
      \* summary / description / deprecated / examples / servers / external docs / security are the method's own (see FacetsAllowed)
      meta |-> "ok",
      errors |-> IF ~(RendersErrors \/ m.meta = "schemas") THEN {}       \* an explicit result schema is always combined with the method's errors
-                ELSE SetOf(IF ErrRef(j) = 0 THEN <<>> ELSE h[ErrRef(j)]) \cup (IF ReadsDocstrings THEN SetOf(DocRaises[m.fn]) ELSE {}),
+                ELSE SetOf(IF ref = 0 THEN <<>> ELSE h[ref]) \cup (IF ReadsDocstrings THEN SetOf(DocRaises[f]) ELSE {}),
      tags |-> m.tags,
      \* the request schema (if one is produced) names the method it belongs to
      reqname |-> IF scn.kind # "openrpc" /\ (scn.extractor \in {"pyd", "doc+pyd"} \/ m.meta = "schemas") THEN "own" ELSE "na",
@@ -60,6 +68,7 @@ EntryOf(j, h) ==
 \*   "own_ann" the value the method itself was annotated with, "own_doc" text taken from the method's own docstring,
 \*   "absent", "foreign" anything else (e.g. another method's annotation); deprecated: "true" / "false" / "absent".
 \* An annotated method shows exactly its own annotations; an unannotated one shows nothing, or its own docstring's text.
+EntryOf(j, h) == EntryOfG(j, h, 1)
 FromDoc(m) == IF HasDoc[m.fn] THEN {"absent", "own_doc"} ELSE {"absent"}
 FacetsAllowed(x, m) ==
     IF m.meta = "full"
@@ -67,9 +76,10 @@ FacetsAllowed(x, m) ==
          /\ x.servers = "own_ann" /\ x.extdocs = "own_ann" /\ x.security = (IF scn.kind = "openrpc" THEN "absent" ELSE "own_ann")
     ELSE /\ x.summary \in FromDoc(m) /\ x.description \in FromDoc(m) /\ x.deprecated \in {"absent", "false"}
          /\ x.examples = "absent" /\ x.servers = "absent" /\ x.extdocs = "absent" /\ x.security = "absent"
-MetaVerdict(e) == IF \E j \in DOMAIN scn.methods : /\ scn.methods[j].fn = e.fn /\ scn.methods[j].ep = e.ep /\ scn.methods[j].name = e.name
-                                                   /\ FacetsAllowed(e.meta, scn.methods[j])
-                  THEN "ok" ELSE "foreign"
+MetaVerdictG(e, g) == IF \E j \in DOMAIN scn.methods : /\ scn.methods[j].fn = e.fn /\ scn.methods[j].ep = e.ep /\ scn.methods[j].name = e.name
+                                                       /\ FacetsAllowed(e.meta, [EffM(j, g) EXCEPT !.fn = EffFn(j, g)])
+                      THEN "ok" ELSE "foreign"
+MetaVerdict(e) == MetaVerdictG(e, 1)
 \* the registry handed to generation g
 \* plan "grow": the last method (and whatever it refers to) is defined and registered only after the first generation
 Sub(g) == IF scn.plan = "shrink" /\ g = 2 THEN {1}
@@ -77,6 +87,7 @@ Sub(g) == IF scn.plan = "shrink" /\ g = 2 THEN {1}
           ELSE DOMAIN scn.methods
 DocOfSub(h, J) == {EntryOf(j, h) : j \in {i \in J : Documented(i)}}
 DocOf(h) == DocOfSub(h, DOMAIN scn.methods)
+DocAt(h, g) == {EntryOfG(j, h, g) : j \in {i \in Sub(g) : Documented(i)}}         \* the document generation g has to produce
 
 \* a generation: appends a document, touches nothing the user owns
 \* Known deviations (known_findings.json): documents that do not validate against the official meta-schema
@@ -86,14 +97,14 @@ DocOf(h) == DocOfSub(h, DOMAIN scn.methods)
 MetaMayFail == \/ "OpenApi30Invalid" \in Deviations /\ scn.kind = "openapi30"
                   /\ (scn.extractor # "base" \/ \E j \in DOMAIN scn.methods : scn.methods[j].meta = "schemas")
                \/ "DocstringNullType" \in Deviations /\ scn.kind = "openrpc" /\ scn.extractor = "doc"
-Generate == /\ docs' = Append(docs, DocOfSub(heap, Sub(Len(docs) + 1)))
+Generate == /\ docs' = Append(docs, DocAt(heap, Len(docs) + 1))
             /\ heap' = heap
             /\ UNCHANGED scn
 Next == Generate
 Spec == [][Next]_vars
 
 Pure       == [][heap' = heap]_vars
-Idempotent == \A i, j \in DOMAIN docs : Sub(i) = Sub(j) => docs[i] = docs[j]
-Isolated   == \A i \in DOMAIN docs : docs[i] = DocOfSub(InitHeap(scn.methods), Sub(i))     \* as if every method had been documented alone, first
+Idempotent == \A i, j \in DOMAIN docs : (Sub(i) = Sub(j) /\ Swapped(i) = Swapped(j)) => docs[i] = docs[j]
+Isolated   == \A i \in DOMAIN docs : docs[i] = DocAt(InitHeap(scn.methods), i)     \* as if every method had been documented alone, first
 ExactlyOnce == \A i \in DOMAIN docs : Cardinality(docs[i]) = Cardinality({j \in Sub(i) : Documented(j)})
 =============================================================================
